@@ -10,6 +10,7 @@ def check(ctx):
     plots.chunk_read_only(ctx, 'C20-R3')
     plots.cycles_modulo(ctx, 'C20-R4')
     plots.consumer_tables(ctx, 'C20-R5')
+    plots.no_state_between_plots(ctx, 'C20-R6')
     ctx.undecided += ['totality of the matplotlib calls themselves; exact file contents',
                       'that an exception inside the plotting code still closes the figure']
     ctx.assumptions += ['plt.style.context / rc_context restore rcParams on exit, including on exceptions']
